@@ -74,12 +74,12 @@ CYCLE_VALUE_OK = {"length_of_cyclic"}   # not actually self-dependent results
 
 # builtins that walk a value natively: on a self-referential (infinite) value they must be stopped too
 NATIVE_CYCLES = {
-    "prune_array": "local a = [1, a]; std.prune(a)",
-    "prune_object": "local a = {b: a, c: 1}; std.prune(a)",
+    "prune": "local a = [1, a]; std.prune(a)",
+    "prune:object": "local a = {b: a, c: 1}; std.prune(a)",
     "flattenDeepArray": "local a = [1, a]; std.flattenDeepArray(a)",
     "deepJoin": "local a = ['x', a]; std.deepJoin(a)",
     "mergePatch": "local a = {b: a}; std.mergePatch(a, a)",
-    "mergePatch_target": "local a = {b: a}; std.mergePatch({b: {b: {}}}, a)",
+    "mergePatch:target": "local a = {b: a}; std.mergePatch({b: {b: {}}}, a)",
     "manifestJsonEx": "local a = [a]; std.manifestJsonEx(a, ' ')",
     "manifestYamlDoc": "local a = {b: a}; std.manifestYamlDoc(a)",
     "manifestTomlEx": "local a = {b: a}; std.manifestTomlEx(a, ' ')",
@@ -98,7 +98,6 @@ NATIVE_CYCLES = {
     "uniq_nested": "local a = [a]; std.uniq([a, a])",
     "objectValues_deep": "local a = {b: a}; std.objectValues(a)",
     "parse_manifest": "local a = [a]; std.parseJson(std.manifestJsonMinified(a))",
-    "join_nested": "local a = ['x', a]; std.join(',', a)",
     "format_s": "local a = [a]; '%s' % [a]",
     "concat_string": "local a = {b: a}; 'x' + a",
     "minArray": "local a = [a]; std.minArray([a, a])",
@@ -246,37 +245,58 @@ def cycles_shard(args):
     return agg
 
 
+def native_cycle_cases(rng, funcs, quick):
+    """Every std function with a self-referential array / object / string-array in every argument position."""
+    cases = [(name, src, True) for name, src in NATIVE_CYCLES.items()]
+    pre = "local a = [1, a], o = {b: o, c: 1}, s = ['x', s]; "
+    others = ["1", "'x'", "function(x) x"]
+    sweep = []
+    for f, n in funcs:
+        if n < 1 or f == "trace":
+            continue
+        for pos in range(n):
+            for c in ("a", "o", "s"):
+                for oth in others:
+                    args = [oth] * n
+                    args[pos] = c
+                    sweep.append((f, pre + "std.%s(%s)" % (f, ", ".join(args)), False))
+    if quick:
+        must = [x for x in sweep if x[0] in ("prune", "flattenDeepArray", "deepJoin", "mergePatch", "manifestXmlJsonml")]
+        rest = [x for x in sweep if x not in must]
+        sweep = must[::3] + rng.sample(rest, 500)
+    return cases + sweep
+
+
 def native_cycles_shard(args):
-    seed, names = args
+    seed, cases = args
     agg = Agg()
-    for name in names:
-        src = NATIVE_CYCLES[name]
-        for s_lim in (5, 500, 20000):
-            # a tiny program: every non-looping outcome takes microseconds, so exhausting 1.5 GiB or 20 s of a dedicated
+    for name, src, strict in cases:
+        builtin = name.split(":")[0]
+        for s_lim in (200,):
+            # a tiny program: every non-looping outcome takes microseconds, so exhausting 1 GiB or 10 s of a dedicated
             # child is the observation "never stopped" (the one place where a timeout is a verdict, see DESIGN.md C10)
-            srv = Server(mem_gib=1.5)
+            srv = Server(mem_gib=1.0)
             lines = run_lines(src.encode(), stack=s_lim, multiline=0)
             agg.evaluations += 1
             try:
-                recs = srv.request(lines, timeout=20)
+                recs = srv.request(lines, timeout=10)
                 o = Outcome(recs)
                 c = classify(o)
-                agg.nontrivial.add(common.h64("native", name, str(s_lim)))
-                agg.add("native_cycle_outcomes", (name, c))
+                agg.nontrivial.add(common.h64("native", src))
+                agg.add("native_cycle_builtins", builtin)
                 if c == "panic":
-                    agg.violation({"kind": "panic", "shape": "native:" + name, "msg": re.sub(r"[0-9]+", "N", o.rec.s("msg") or "")[:80]},
+                    agg.violation({"kind": "panic", "shape": "native:" + builtin, "msg": re.sub(r"[0-9]+", "N", o.rec.s("msg") or "")[:80]},
                                   {"src": src, "s": s_lim, "panic": o.rec.s("msg")}, {"script": lines})
-                elif c not in ("InfiniteRecursion", "StackOverflow"):
+                elif strict and c not in ("InfiniteRecursion", "StackOverflow"):
                     agg.violation({"kind": "cycle_not_reported", "shape": "native:" + name, "outcome": c},
                                   {"src": src, "s": s_lim, "got": o.describe()}, {"script": lines})
             except Crashed as e:
                 if "overflowed its stack" in e.detail:
-                    agg.violation({"kind": "native_stack_exhausted_by_evaluation", "shape": "native:" + name},
+                    agg.violation({"kind": "native_stack_exhausted_by_evaluation", "shape": "native:" + builtin},
                                   {"src": src, "s": s_lim, "crash": e.detail[-300:]}, {"script": lines})
                 else:
-                    agg.violation({"kind": "endless_native_traversal", "builtin": name, "how": e.kind},
-                                  {"src": src, "s": s_lim, "observed": e.kind, "detail": e.detail[-200:]}, {"script": lines})
-                break
+                    agg.violation({"kind": "endless_native_traversal", "builtin": builtin},
+                                  {"src": src, "s": s_lim, "observed": e.kind}, {"script": lines})
             finally:
                 srv.close()
     return agg
@@ -336,7 +356,14 @@ def run(tier, seed):
                                                    ("object_self_cycle", "manifest_cycle", "equals_cycle", "toString_cycle") else [1])]
     for a in common.pmap(cycles_shard, [(seed + i, cj[i::8]) for i in range(8)]):
         total.merge(a)
-    nc = list(NATIVE_CYCLES)
+    srv0 = Server()
+    try:
+        from checks.c01 import std_functions
+        funcs = sorted((f, n) for f, n in std_functions(srv0).items() if n >= 0)
+    finally:
+        srv0.close()
+    nc = native_cycle_cases(rng, funcs, quick)
+    rng.shuffle(nc)
     for a in common.pmap(native_cycles_shard, [(seed, nc[i::16]) for i in range(16)]):
         total.merge(a)
     ns = [1, 2, 29, 30, 31, 100, 499, 500, 501, 1000, 2000] if quick else list(range(1, 40)) + [100, 250, 499, 500, 501, 502, 750, 1000, 1500, 2000, 5000]
@@ -350,9 +377,10 @@ def run(tier, seed):
             f"default args) x depths x a ladder of {len(S_LADDER)} frame limits (0..10^6): outcome in "
             "{value, StackOverflow}, never a crash; the value is the expected one; monotone in the limit; a recursion "
             f"d deep never succeeds under a limit s with d >= 3s+20; {len(CYCLES)} self-referential programs x cycle "
-            "lengths x limits must end in InfiniteRecursion or StackOverflow; " + str(len(NATIVE_CYCLES)) + " builtins that walk values "
-            "natively applied to self-referential values must be stopped the same way (a dedicated child that exhausts 20 s "
-            "or 1.5 GiB on such a tiny program is the observation 'never stopped'); flat workloads of n elements through "
+            "lengths x limits must end in InfiniteRecursion or StackOverflow; " + str(len(NATIVE_CYCLES)) + " hand-picked builtin applications "
+            "and a sweep of every std function with a self-referential array/object in every argument position must be "
+            "stopped the same way or answer (a dedicated child that exhausts 10 s or 1 GiB on such a tiny program is the "
+            "observation 'never stopped'); flat workloads of n elements through "
             "array builtins: never a crash, monotone. distinct_nontrivial = distinct (shape, depth, limit) points run.")
     return common.finish(PROP, tier, seed, total, rule, t0,
                          assumptions=["'however deeply or endlessly' is restated as bounded sweeps (depth <= 10^5, limit <= 10^6)",
